@@ -140,7 +140,7 @@ def run(rep, tier, seed):
         other = DI.DOWN if d == DI.UP else DI.UP
         pd.direction = d
         nf = len(pd.fields)
-        shape = rnd.choice(['last-d-only', 'last-d-only', 'first-d-only', 'middle-d-only', 'tail-block-d-only', 'extra-other-last', 'extra-other-middle', 'both'])
+        shape = rnd.choice(['last-d-only', 'last-d-only', 'first-d-only', 'middle-d-only', 'tail-block-d-only', 'extra-other-last', 'extra-other-middle', 'both', 'all-d-only', 'all-d-only', 'only-other-extras', 'only-other-extras'])
         only = set()
         if shape in ('last-d-only', 'both'):
             only = {nf - 1}
@@ -150,13 +150,21 @@ def run(rep, tier, seed):
             only = {rnd.randrange(nf)}
         elif shape == 'tail-block-d-only':
             only = set(range(rnd.randrange(nf), nf))
+        elif shape == 'all-d-only':
+            only = set(range(nf))            # every descriptor marked d, none Bi: for the other direction the rule has no descriptor at all
         fds = []
         for j, f_ in enumerate(pd.fields):
-            fds.append(gen_rfd(rnd, f_, rnd.choice(KINDS), d if j in only else rnd.choice([DI.BIDIRECTIONAL, DI.BIDIRECTIONAL, d])))
+            fds.append(gen_rfd(rnd, f_, rnd.choice(KINDS), d if j in only else (DI.BIDIRECTIONAL if shape == 'only-other-extras' else rnd.choice([DI.BIDIRECTIONAL, DI.BIDIRECTIONAL, d]))))
             if fds[-1].direction == d and j not in only:
                 fds.append(gen_rfd(rnd, f_, rnd.choice(KINDS), other))
         if shape in ('extra-other-last', 'both'):
             fds.append(gen_rfd(rnd, pd.fields[-1], rnd.choice(('vs', 'ns', 'lsb')), other))
+        if shape == 'only-other-extras':
+            # every descriptor Bi, plus descriptors for the OTHER direction only (optional fields that direction carries), in front of
+            # descriptors that follow: no descriptor is marked d itself, and still only d / Bi ones are used for d
+            for _ in range(rnd.randint(1, 3)):
+                j = rnd.randrange(len(fds))
+                fds.insert(j, gen_rfd(rnd, rnd.choice(pd.fields), rnd.choice(('vs', 'ns', 'lsb', 'vsv')), other))
         if shape == 'extra-other-middle':
             j = rnd.randrange(len(fds) + 1)
             fds.insert(j, gen_rfd(rnd, rnd.choice(pd.fields), rnd.choice(('vs', 'ns', 'lsb')), other))
